@@ -27,7 +27,7 @@ man = {
     'version': 1,
     'setup_cmd': 'python3 run.py setup',
     'hooks': {'guard': 'DATASKETCHES_VERIF', 'enable': 'checks compile the header-only library with -DDATASKETCHES_VERIF (clang++-14 for the encoding, g++ for replay); nothing is built inside /repo',
-              'baseline_off_cmd': 'cmake -S /repo -B /repo/_build -G Ninja && cmake --build /repo/_build -j16 && ctest --test-dir /repo/_build -j8 --timeout 900',
+              'baseline_off_cmd': 'cmake -S /repo -B /repo/_build -G Ninja -DFETCHCONTENT_TRY_FIND_PACKAGE_MODE=ALWAYS -DFETCHCONTENT_UPDATES_DISCONNECTED=ON && cmake --build /repo/_build -j16 && ctest --test-dir /repo/_build -j8 --timeout 900',
               'source_commits': ['e9379e0'], 'add_only': True},
     'engines': [{'name': 'll2c+cbmc', 'path': '/verif/run.py', 'serves_properties': [c['property_id'] for c in checks],
                  'kind_free_text': 'clang++-14 -O1 LLVM IR of the real headers -> own IR-to-C translator (tool/ll2c.cpp, libLLVM-14) -> cbmc 6.11 bounded model checking; counterexamples replayed on the g++/ASan build of the real code'}],
